@@ -203,6 +203,9 @@ def gb_text(rec):
             if any(x in CASSETTE_LABELS for x in labs):
                 extra = ["color: #%06x" % (h * 7919 % 0xFFFFFF)] + (["lab marker %d" % h] if h % 2 else [])
                 f.qualifiers["label"] = (extra[:1] + labs + extra[1:]) if h % 5 < 2 else (labs + extra)
+                if h % 4 == 1:
+                    # the cassette's name twice on the same feature (two annotation sources merged by an editor)
+                    f.qualifiers["label"] = f.qualifiers["label"] + [x for x in labs if x in CASSETTE_LABELS][:1]
                 break
     b = io.StringIO()
     SeqIO.write([rec], b, "genbank")
@@ -435,6 +438,8 @@ def execute(mat, ctx):
     # combined registries against a dict model
     embedded = regs.registries()
     members = []
+    truth = {}        # id(registry) -> {key: sequence text the harness wrote}, for the directory members
+    alive = []        # every registry object made here stays referenced: an id() must not be handed to a later object
     model = {}
     descr = []
     F_keep = []
@@ -448,16 +453,42 @@ def execute(mat, ctx):
             pbase, rname, recs = pool[rng.randrange(len(pool))]
             F = fs.open_fs("mem://")
             F_keep.append(F)
+            wrote = {}
             for key, rec in rng.sample(recs, min(len(recs), 4)):
                 other = rng.choice(recs)[1]
                 with F.open("%s.gb" % key, "w") as f:
                     f.write(gb_text(other))
+                wrote[key] = str(other.seq)
             R = rb.FilesystemRegistry(F, pbase)
+            truth[id(R)] = wrote
+            alive.append(R)
             descr.append("dir(%s)" % rname)
+            rtw = gen.rng_for(mat["seed"], PROP, kind, "twin-directory", mat["i"], j)
+            if rtw.random() < 0.35:
+                # a second directory of the same kind with the same file names holding other plasmids (two freezer boxes
+                # catalogued alike): it is added right after the first one, which must win - and each stays what it is
+                F2 = fs.open_fs("mem://")
+                F_keep.append(F2)
+                wrote2 = {}
+                for key in wrote:
+                    other = rtw.choice([r for r in recs if str(r[1].seq) != wrote[key]])[1]
+                    with F2.open("%s.gb" % key, "w") as f:
+                        f.write(gb_text(other))
+                    wrote2[key] = str(other.seq)
+                R2 = rb.FilesystemRegistry(F2, pbase)
+                truth[id(R2)] = wrote2
+                alive.append(R2)
+                members.append(R)
+                descr.append("twin-dir(%s)" % rname)
+                R = R2
+                ctx.count("c20_twin_directories")
         if rng.random() < 0.35:
             # a member that is itself a combination (possibly of several registries)
             inner = rb.CombinedRegistry()
+            alive.append(inner)
             inner << R
+            if id(R) in truth:
+                truth[id(inner)] = truth[id(R)]      # its keys were added first: they win inside the inner combination
             if rng.random() < 0.5:
                 extra = rng.choice(["ytk", "ptk", "cidar", "ecoflex", "plant"])
                 inner << _emb(extra)
@@ -481,9 +512,16 @@ def execute(mat, ctx):
         else:
             C.add_registry(R)
         member_keys.append(set(R))
+        known = truth.get(id(R), {})
         for k in member_keys[-1]:
+            got = str(R[k].entity.record.seq)
+            if k in known:
+                # what a directory member holds is what the harness wrote into that directory, not what any other holds
+                ctx.count("c20_directory_members_checked_against_written_files")
+                if got != known[k]:
+                    ctx.violation("directory-item-wrong-plasmid", "a directory registry returns for %r a plasmid other than the one written to its file %r.gb" % (k, k), key=k, members=list(descr))
             if k not in model:
-                model[k] = str(R[k].entity.record.seq)
+                model[k] = known.get(k, got)
 
     for R in members:
         add(R)
